@@ -360,6 +360,11 @@ def o134(ctx):
             it = Interp(ctx.prog, summaries=summ)
             r = it.run(q, [Seq(masks, "list")], {})
             t = to_term(r.ret)
+            opaque_ = [n_ for n_ in tm.walk(t) if n_.op == "call"]
+            if opaque_:
+                # a library / repository call the interpretation did not follow (an iterator chain, an un-modelled helper) stands in the result: its value
+                # at the sample points would be an arbitrary number -- the truth table is not decided
+                raise Unsupported(f"{name}: the result contains a call that is not interpreted ({str(opaque_[0].args[0])[:40]}): truth table not decided", fn)
             bad = None
             for bits in itertools.product((0.0, 1.0), repeat=k):
                 env = {f"m{i}": b for i, b in enumerate(bits)}
@@ -417,7 +422,12 @@ def o134(ctx):
         for e in it2.events:
             if e.kind == "inplace" and e.fn == q:
                 ctx.count(1, {"function": name, "in-place": norm_text(e.node), "target fresh": e.extra.get("fresh")})
-                if e.extra.get("fresh") is not True:
+                tgt0 = e.args[0] if e.args else None
+                t0 = to_term(tgt0) if tgt0 is not None else None
+                # the value of an arithmetic expression / a clip / a minimum ... is a new array whatever its operands were (numpy allocates the result)
+                computed = t0 is not None and (t0.op in ("add", "sub", "mul", "div", "minimum", "maximum", "clip", "abs", "neg")
+                                               or (t0.op == "call" and str(t0.args[0]) in ("numpy.clip", "clip", "numpy.where", "where")))
+                if e.extra.get("fresh") is not True and not computed:
                     ctx.finding(q, e.node, f"{name} folds in place into an array that may alias an input mask (not a fresh copy)", e.node, m)
                 # element type of the accumulator of a subtraction: binary masks come as bool / uint8 / int / float arrays; in an unsigned type 0 - 1
                 # wraps to the maximum (and is clipped to 1), bool has no `-` at all, an integer type truncates soft masks: floating point only
@@ -433,6 +443,14 @@ def o134(ctx):
                                     "a boolean mask has no `-`; union and intersection fold in floating point", e.node, m)
                     elif kind != "float":
                         ctx.finding(q, "element type of the accumulator", f"{name} subtracts in an accumulator converted to a {kind} type: soft masks are truncated", e.node, m)
+        # the fold runs over EVERY mask of the list: no way out of the loop (break / return) under a condition on the voxel values -- the unclipped
+        # running result of a subtraction is negative where a later mask lies outside the first, so "nothing left" cannot be read off a sum
+        for lp_ in [n_ for n_ in ast.walk(fn) if isinstance(n_, (ast.For, ast.While))]:
+            for x_ in ast.walk(lp_):
+                if isinstance(x_, (ast.Break, ast.Return)):
+                    ctx.count(1)
+                    ctx.finding(q, "fold cut short", f"{name} leaves the loop over the masks early (`{norm_text(x_)[:40]}`): the masks that were not reached are not combined", x_, m)
+                    break
         # a plain `a - b` in a combinator: both operands must be results of sibling combinators (floating point by the rule above)
         for b_ in ast.walk(fn):
             if isinstance(b_, ast.BinOp) and isinstance(b_.op, ast.Sub):
